@@ -2,6 +2,7 @@
 From Coq Require Import List NArith ZArith Bool.
 Import ListNotations.
 Require Import Parser SBase SPrim SDir.
+Require Export Escapes.
 Open Scope N_scope.
 Open Scope mon_scope.
 
@@ -14,12 +15,11 @@ Definition nls (n : N) (acc : list chr) : list chr := N.iter n (cons 10) acc.  (
 Definition col_lt_indent : M bool := gets (fun s => (Z.of_N (m_col (sc_mark s)) <? sc_indent s)%Z).
 
 (* ---- resolve_flow_scalar_escape_sequence (2086-2153) ---- *)
-Definition escape_table : list (chr * chr) :=
-  [(48,0);(97,7);(98,8);(116,9);(9,9);(110,10);(118,11);(102,12);(114,13);(101,27);(32,32);(34,34);(47,47);(92,92);
-   (78,133);(95,160);(76,8232);(80,8233)].
 Fixpoint assocc (k : chr) (l : list (chr * chr)) : option chr :=
   match l with [] => None | (a, b) :: r => if a =? k then Some b else assocc k r end.
-Definition code_length (c : chr) : nat := if c =? 120 then 2 else if c =? 117 then 4 else if c =? 85 then 8 else 0.
+Fixpoint assocn (k : chr) (l : list (chr * nat)) : nat :=
+  match l with [] => O | (a, b) :: r => if a =? k then b else assocn k r end.
+Definition code_length (c : chr) : nat := assocn c code_length_table.
 Definition is_scalar_value (v : N) : bool := (v <? 55296) || ((57343 <? v) && (v <=? 1114111)).
 Fixpoint read_hex (n i : nat) (acc : N) (start : marker) : M N :=
   match n with
